@@ -650,6 +650,9 @@ func (env *Env) evalCall(x *ECall) Term {
 		if a.Sort == SVal {
 			return Term{S: "(= (pv_tid " + a.S + ") 0)", Sort: SBool}
 		}
+		if a.Sort == SFn {
+			return Term{S: "(= (pv_fid " + a.S + ") 0)", Sort: SBool}
+		}
 		return tEq(a, mkInt(0))
 	case "box":
 		a := env.Eval(x.Args[0])
